@@ -196,6 +196,18 @@ AgreeDecoder(e) == e.ev \in {"rt", "dec"} =>
    /\ e.ok = (r.st = "accept")
    /\ e.hdrs = r.log
 
+\* C13, several items of different length-byte classes in one message: each header the encoder wrote is the
+\* specification's, and the decoder read exactly that length for it, whatever came before
+PropSeq(e) == e.ev = "bigseq" =>
+   /\ e.ok /\ e.same
+   /\ Len(e.hdrs) = Len(e.kids) + 1
+   /\ e.hdrs[1].raw = ItemHeader(0, Len(e.kids)) /\ e.hdrs[1].len = Len(e.kids)
+   /\ \A i \in 1..Len(e.kids) : LET k == e.kids[i]  c == CodeOf(k.f)  h == e.hdrs[i + 1] IN
+          /\ h.raw = ItemHeader(c, k.n)
+          /\ h.nl = Len(h.raw) - 1
+          /\ h.code = c
+          /\ h.len = k.n * Width(c)
+InvSeq == l > 0 => PropSeq(E)
 InvExpect == l > 0 => PropExpect(E)
 InvC01 == l > 0 => PropC01(E)
 InvC02 == l > 0 => PropC02(E)
